@@ -5,6 +5,8 @@
 (* (virtual clock, fake pipe) are validated step by step:                    *)
 (*  [ev |-> "start", run, id, kind, frs, rx]                                  *)
 (*  [ev |-> "step", run, id, n, now, handed, sent, post, exc, dup]           *)
+(*      n = 0: the link was idle (receive time-out); whatever the loop hands  *)
+(*      over or sends during it is judged like any other step                 *)
 (*     n bytes arrived at virtual time `now` (half seconds); `handed` = messages the reader returned (text);         *)
 (*     `sent` = batches NetSource put on the pipe in this step, each [adsb, commb] of frames (bytes);                 *)
 (*     `post` = table projection after Decode.process_raw consumed those batches (as in Trace_Tracker).              *)
